@@ -156,3 +156,54 @@ pub fn state_message(img: &Image, prefix: &str, close: bool) -> [Scalar; 5] {
         refmath::u64_scalar(mb),
     ]
 }
+
+// ---- honest protocol runs (no checks; used to reach states for the adversarial checks) ----------
+
+use zkabacus_crypto::customer::{Ready, Requested, StartMessage, Started};
+use zkabacus_crypto::PaymentAmount;
+
+pub struct Established {
+    pub ready: Ready,
+    pub proof_bytes: Vec<u8>,
+    pub closing_bytes: Vec<u8>,
+    pub token_bytes: Vec<u8>,
+    pub requested_bytes: Vec<u8>,
+}
+
+/// Honest establishment; None if any step fails (callers treat that as a harness-level problem).
+pub fn establish(m: &Merchant, cid: &ChannelId, cb: u64, mb: u64, ctx: &Context, seed: u64) -> Option<Established> {
+    let (req, proof) = Requested::new(&mut rng(seed ^ 0xe1), &m.cust, *cid, mbal(mb), cbal(cb), ctx);
+    let proof_bytes = wire::enc(&proof);
+    let requested_bytes = wire::enc(&req);
+    let (closing, vbs) = m.cfg.initialize(&mut rng(seed ^ 0xe2), cid, cbal(cb), mbal(mb), proof, ctx)?;
+    let closing_bytes = wire::enc(&closing);
+    let inactive = req.complete(closing, &m.cust).ok()?;
+    let token = m.cfg.activate(&mut rng(seed ^ 0xe3), vbs);
+    let token_bytes = wire::enc(&token);
+    let ready = inactive.activate(token, &m.cust).ok()?;
+    Some(Established { ready, proof_bytes, closing_bytes, token_bytes, requested_bytes })
+}
+
+pub fn amount(v: i64) -> PaymentAmount {
+    if v >= 0 {
+        PaymentAmount::pay_merchant(v as u64).expect("amount")
+    } else {
+        PaymentAmount::pay_customer(v.unsigned_abs()).expect("amount")
+    }
+}
+
+/// Honest start of a payment.
+pub fn start(m: &Merchant, ready: Ready, amt: i64, ctx: &Context, seed: u64) -> Option<(Started, StartMessage)> {
+    ready.start(&mut rng(seed ^ 0xa1), amount(amt), ctx, &m.cust).ok()
+}
+
+/// One complete honest payment.
+pub fn pay(m: &Merchant, ready: Ready, amt: i64, ctx: &Context, seed: u64) -> Option<Ready> {
+    let (started, msg) = start(m, ready, amt, ctx, seed)?;
+    let (unrevoked, closing) = m.cfg.allow_payment(&mut rng(seed ^ 0xa2), amount(amt), &msg.nonce, msg.pay_proof, ctx)?;
+    let (locked, lock_msg) = started.lock(closing, &m.cust).ok()?;
+    let token = unrevoked
+        .complete_payment(&mut rng(seed ^ 0xa3), &lock_msg.revocation_pair, &lock_msg.revocation_lock_blinding_factor)
+        .ok()?;
+    locked.unlock(token, &m.cust).ok()
+}
